@@ -30,7 +30,7 @@ package retry
 //@   function
 //@
 //@ func Execute
-//@   requires config == nil || valid(*config)
+//@   requires[C17] config == nil || valid(*config)
 //@   ensures[C17 at-most-maxretries-plus-one-attempts] config != nil ==> attempts - old(attempts) <= config.MaxRetries + 1
 //@   ensures[C17 at-least-one-attempt-unless-cancelled] attempts - old(attempts) >= 0
 //@   ensures[C17 exactly-once-without-retries] (config == nil || config.MaxRetries == 0) ==> attempts == old(attempts) + 1
